@@ -54,6 +54,13 @@ pub fn check_case(c0: &Case) -> Verdict {
     let batches = c.mem.batches(&c.recs);
     v.class(match batches { 0 | 1 => "batches<=1", 2 => "batches=2", _ => "batches>=3" });
     v.class(format!("k={}", c.k));
+    if c.k >= 5 && c.recs.len() <= 100 {
+        let round = c.recs.iter().any(|r| r.seq.0.len() >= 255 && r.seq.0.len() < 100_000 && {
+            let (counts, _) = model::oligo_counts(&r.seq.0, &rt);
+            gen::DISTINCT_TARGETS.contains(&counts.iter().filter(|&&x| x > 0).count())
+        });
+        v.class_if(round, "record-with-255/256/257/1024...-distinct-kmers");
+    }
     v.class(if c.norm { "norm" } else { "counts" });
     v.class(match c.s { 1 => "S=1", 2..=16 => "S<=16", 17..=1024 => "S<=1024", _ => "S>1024" });
     v.class(if c.via_cli { "via-executable" } else { "via-library" });
@@ -194,7 +201,13 @@ impl Leg for Runs {
         (prop_oneof![8 => 1usize..=6, 1 => Just(7usize)], gen::square_strategy(), any::<bool>(), gen::threads_strategy(), prop::sample::select(vec![Mem::OneByte, Mem::ThreeRecords, Mem::Half, Mem::Max]))
             .prop_flat_map(move |(k, s, norm, threads, mem)| {
                 let p = RecParams { max_records: if k >= 7 { 3 } else if k >= 5 { 8 } else { tier.pick(20, 80) }, scale: k, max_len: tier.pick(150, 400), degenerate_w: 2, bounds: [k, 0, 0], nuc_only: false };
-                (gen::records_in_container(p), prop_oneof![2 => Just(None), 1 => (gen::square_strategy(), any::<bool>()).prop_map(Some)], io::stale_strategy()).prop_map(move |((recs, cont), cohabitant, stale)| Case { recs, cont, k, s, norm, threads, mem, giant: None, via_cli: false, cohabitant, stale })
+                (gen::records_in_container(p), prop_oneof![2 => Just(None), 1 => (gen::square_strategy(), any::<bool>()).prop_map(Some)], io::stale_strategy(), prop_oneof![5 => Just(None), 1 => (any::<u16>(), any::<u64>()).prop_map(Some)]).prop_map(move |((mut recs, cont), cohabitant, stale, distinct)| {
+                    // one record (followed by others) with exactly 255 / 256 / 257 / 1024 ... distinct canonical k-mers
+                    if let Some((pick, seed)) = distinct {
+                        gen::plant_distinct(&mut recs, k, pick, seed);
+                    }
+                    Case { recs, cont, k, s, norm, threads, mem, giant: None, via_cli: false, cohabitant, stale }
+                })
             })
             .boxed()
     }
@@ -213,7 +226,12 @@ impl Leg for Cli {
             .prop_flat_map(move |(k, norm, threads)| {
                 let s = prop_oneof![3 => Just(1u64), 1 => Just(2u64), 1 => Just(3u64), 2 => Just((k * k) as u64), 1 => Just(1u64 << 20), 4 => 1u64..=(1u64 << 20), 2 => 1u64..=64];
                 let p = RecParams { max_records: if k >= 7 { 3 } else if k >= 5 { 6 } else { tier.pick(12, 40) }, scale: k, max_len: tier.pick(150, 400), degenerate_w: 2, bounds: [k, 0, 0], nuc_only: false };
-                (gen::records_in_container(p), s).prop_map(move |((recs, cont), s)| Case { recs, cont, k, s, norm, threads, mem: Mem::Max, giant: None, via_cli: true, cohabitant: None, stale: 0 })
+                (gen::records_in_container(p), s, prop_oneof![5 => Just(None), 1 => (any::<u16>(), any::<u64>()).prop_map(Some)]).prop_map(move |((mut recs, cont), s, distinct)| {
+                    if let Some((pick, seed)) = distinct {
+                        gen::plant_distinct(&mut recs, k, pick, seed);
+                    }
+                    Case { recs, cont, k, s, norm, threads, mem: Mem::Max, giant: None, via_cli: true, cohabitant: None, stale: 0 }
+                })
             })
             .boxed()
     }
